@@ -139,15 +139,22 @@ func exportRewrite(sc *ioScenario, src string) tr.Ev {
 	}
 	a, _ := os.ReadFile(filepath.Join(dir, "out."+ext))
 	b, _ := os.ReadFile(filepath.Join(dir, "fresh."+ext))
-	// the exporters print maps and some lists in no fixed order (a finding of C19): the two files are compared as
-	// documents, lists as multisets
-	ca, erra := canonDoc(a, ext)
-	cb, errb := canonDoc(b, ext)
+	// The exporters print maps in no fixed order, and the Swagger exporter even lets same-named array fields of two types
+	// overwrite one top-level definition in map order (findings of C19), so two exports of one model need not be equal.
+	// What the rewritten file must be is a document (it parses) that holds nothing of the longer model written before:
+	// the longer model's own type and path are looked for by name.
+	_, erra := canonDoc(a, ext)
+	_, errb := canonDoc(b, ext)
 	if erra != nil || errb != nil {
 		ev["ok"], ev["msg"] = true, fmt.Sprint("rewritten: ", erra, "; fresh: ", errb)
+		ev["same"] = erra == nil && errb != nil // only the fresh one is unreadable: nothing to hold against the rewrite
 		return ev
 	}
-	ev["ok"], ev["same"] = true, ca == cb
+	stale := bytes.Contains(a, []byte("ZzEarlier")) || bytes.Contains(a, []byte("zz/earlier"))
+	ev["ok"], ev["same"] = true, !stale
+	if stale {
+		ev["msg"] = "the rewritten file still names what only the earlier, longer model declared"
+	}
 	return ev
 }
 
